@@ -218,6 +218,33 @@ func (s *setSubj[T]) Enumerate(op Op, o *Oracle) bool {
 			n := newSetSubj(s.cfg, s.d, false)
 			n.s = res.(sets.Set[T])
 			n.modelAdd(model) // inserting in iteration order: sets deduplicate (and TreeSet re-sorts)
+			// the result is a set like any other: it combines with the receiver and with itself
+			rc, sc := n.classSet(), s.classSet()
+			for _, c := range []struct {
+				name string
+				got  sets.Set[T]
+				keep func(inRes, inRecv bool) bool
+			}{
+				{"result.Union(receiver)", setAlgebra[T](n.s, s.s, "Union"), func(a, b bool) bool { return a || b }},
+				{"receiver.Intersection(result)", setAlgebra[T](s.s, n.s, "Intersection"), func(a, b bool) bool { return a && b }},
+				{"result.Difference(receiver)", setAlgebra[T](n.s, s.s, "Difference"), func(a, b bool) bool { return a && !b }},
+				{"result.Union(result)", setAlgebra[T](n.s, n.s, "Union"), func(a, _ bool) bool { return a }},
+			} {
+				want := []string{}
+				for cl := range rc {
+					if c.keep(true, sc[cl]) {
+						want = append(want, cl)
+					}
+				}
+				for cl := range sc {
+					if !rc[cl] && c.keep(false, true) {
+						want = append(want, cl)
+					}
+				}
+				if g, w := sortedStrings(mapS(c.got.Values(), s.class)), sortedStrings(want); !slices.Equal(g, w) {
+					o.Fail("C14", "result-algebra", "%s of a %s result: %v, want %v", c.name, op.N, g, w)
+				}
+			}
 			return n
 		},
 		func(xs []T) any {
@@ -389,6 +416,7 @@ func (w *enumWorld) Gen(seed uint64, tier string) *Plan {
 	}
 	if floatOK("C14", cfg.Kind) && r.P(1, 8) {
 		useFloat(r, &cfg) // both zeros (== but distinguishable), infinities, NaN keys for the tree kinds
+		cfg.NoNaN = !usesCmp(cfg.Kind)
 	}
 	p := &Plan{World: "enum", Cfg: cfg}
 	s := makeSubject(cfg, false)
